@@ -308,7 +308,7 @@ func (e *c05Env) op(ctx boltz.MutateContext, op string) (string, bool) {
 
 func c05Cursor(c ast.SetCursor) []string {
 	var res []string
-	for n := 0; c.IsValid() && n < 1000; n++ {
+	for n := 0; c.IsValid() && n < 1000000; n++ {
 		res = append(res, string(c.Current()))
 		c.Next()
 	}
